@@ -37,7 +37,7 @@ class C15(Prop):
     def harness(self, ctx):
         env = build_bridge(ctx)
         obs = {}
-        for name in ("C15Conn", "C15Bridge", "C15Route", "C15Idle", "C15WriteThenClose"):
+        for name in ("C15Conn", "C15Bridge", "C15Route", "C15Idle", "C15WriteThenClose", "C15Passthrough"):
             rc, out, p, dt = C.go_test_overlay(ctx.work, "./utils/tcpbridge/connection/", "TestVerif%s$" % name, OVERLAY, name + ".jsonl", ctx.seed, ctx.tier, timeout=1800, extra_env=env)
             rows = C.read_jsonl(p)
             if rc != 0 or not rows:
@@ -47,6 +47,21 @@ class C15(Prop):
 
     def oracle(self, ctx, obs):
         res = []
+        for r in obs.get("C15Passthrough", []):
+            rp = {"driver": "TestVerifC15Passthrough: raw HTTP request -> tcp-bridge-backend binary -> raw TCP server on the backend port", "observed": r}
+            want_line = "%s %s HTTP/1.1" % (r["method"], r["target"])
+            if r.get("err") or not r.get("reached_backend"):
+                res.append(("passthrough:not-delivered", "%s %r did not reach the backend port (%s)" % (r["method"], r["target"][:80], r.get("err") or "status %s" % r.get("status")), rp))
+                continue
+            if r.get("seen_line") != want_line:
+                what = "query" if r["seen_line"].split("?")[0] == want_line.split("?")[0] else "method/path"
+                res.append(("passthrough:request-target-changed:" + what, "the backend port saw %r for %r" % (r.get("seen_line")[:200], want_line[:200]), rp))
+            if r.get("seen_host") != "bridged.example:8443":
+                res.append(("passthrough:host-changed", "the backend port saw Host %r" % r.get("seen_host"), rp))
+            if r.get("seen_custom") != ["one", "two"] or r.get("seen_cookie") != "a=1; b=2":
+                res.append(("passthrough:header-changed", "the backend port saw X-Custom %r, Cookie %r" % (r.get("seen_custom"), r.get("seen_cookie")), rp))
+            if r.get("seen_body_len") != r["body_len"] or r.get("seen_body_sum") != r["body_sum"]:
+                res.append(("passthrough:body-changed", "a body of %d bytes arrived as %s bytes" % (r["body_len"], r.get("seen_body_len")), rp))
         for r in obs.get("C15Route", []):
             path_only = r["path"].split("?")[0]
             bridge = r["upgrade"] and path_only == r["streaming_path"]
